@@ -161,22 +161,78 @@ class GetReaderProved(Contract):
         return Opaque('reader class chosen by getreader')
 
 
-class ReaderDictAssumed(Contract):
-    """getreaderdict() = dict(_readers): a NEW dictionary of the registered (name, reader) pairs -- looking a name up in it
-    yields that reader or raises KeyError; the registry itself is not touched"""
+class GetReaderDict(Contract):
+    """getreaderdict() for an ARBITRARY registry: the result is a NEW dictionary built from the registry as it is at the call
+    (every (name, reader) pair, later entries win on a lookup), the registry is untouched, no module-level variable is written
+    and none other than the registry is read -- in particular the result cannot be a table kept from an earlier call"""
+    prop = 'C15'
+    target = GR + '::getreaderdict'
+    name = 'getreaderdict'
+
+    def inputs(self, ctx, I):
+        reg = registry(ctx, ctx.fresh('anypath'))
+        ctx.modstate[(GR, '_readers')] = reg
+        self.reg0 = (reg.n, reg.get)
+        self.reg = reg
+        return {}
+
+    def call_args(self, inp):
+        return [], {}
+
+    def ensures(self, inp, res, I):
+        from pyvc.arrays import SymDict
+        reg = I.ctx.modstate[(GR, '_readers')]
+        n0, get0 = self.reg0
+        w = sorted(set(e[2] for e in I.ctx.events if e[0] == 'global-write'))
+        r = sorted(set(e[2] for e in I.ctx.events if e[0] == 'global-read' and e[2] != '_readers'))
+        return [('result-is-a-dictionary-of-the-current-registry', isinstance(res, SymDict) and symlist_same(res, n0, get0)),
+                ('result-is-not-the-registry-itself', res is not reg),
+                ('frame:registry-unchanged', symlist_same(reg, n0, get0)), ('frame:registry-same-object', reg is self.reg),
+                ('frame:registry-not-mutated', not reg.mutations),
+                ('frame:no-module-global-written %s' % (w or ''), not w), ('determinism:no-other-module-state-read %s' % (r or ''), not r)]
+
+    def concretize(self, model, inp):
+        return dict(nreaders=model.eval(self.reg0[0], model_completion=True).as_long())
+
+    def concretize_without_model(self, inp):
+        return dict(nreaders=1)
+
+    def replay(self, c):
+        """on the real code: a reader registered between two calls must be in the second dictionary, the two results are
+        distinct objects, writing into one does not reach the registry"""
+        import_real()
+        import PseudoNetCDF._getreader as G
+        saved = list(G._readers)
+        try:
+            d1 = G.getreaderdict()
+            G.registerreader('verif_late_reader', object)
+            d2 = G.getreaderdict()
+            bad = []
+            if 'verif_late_reader' not in d2:
+                bad.append('a reader registered after the first call is missing from the second dictionary')
+            if d1 is d2:
+                bad.append('two calls return the same object')
+            d2['verif_scribble'] = None
+            if any(k == 'verif_scribble' for k, _ in G._readers) or 'verif_scribble' in G.getreaderdict():
+                bad.append('writing into the result changes later results')
+            return not bad, dict(failed=bad)
+        finally:
+            G._readers[:] = saved
+
+
+class GetReaderDictProved(Contract):
+    """summary of getreaderdict used while verifying pncopen: a new dictionary of the registry as it is at the call -- what the
+    contract getreaderdict above proves (looking a name up in it yields the reader of the last entry with that name or raises
+    KeyError: language semantics of dict, pyvc.arrays.SymDict)"""
     prop = 'C15'
     target = GR + '::getreaderdict'
 
     def apply(self, I, func, args, kwargs):
-        from pyvc.exec import Obj
-        from pyvc import models
+        from pyvc.arrays import SymDict
         I.ctx.ghost.setdefault('calls', []).append('getreaderdict')
-
-        def getitem(I2, a, k):
-            if I2.ctx.branch(I2.ctx.fresh('format_is_registered', 'Bool')):
-                return Opaque('reader class registered under the given format')
-            raise PyExc('KeyError')
-        return Obj(None, {'__getitem__': models.native(getitem)}, tag='dict(_readers)')
+        I.ctx.trust_contract = getattr(I.ctx, 'trust_contract', set())
+        I.ctx.trust_contract.add(self.target + ' (proved: contract getreaderdict)')
+        return SymDict(I.ctx.modstate[(GR, '_readers')])
 
 
 class PncOpen(Contract):
@@ -186,7 +242,7 @@ class PncOpen(Contract):
     from a dictionary copy of the registry and getreader is not consulted; without, getreader is called exactly once."""
     prop = 'C15'
     target = GR + '::pncopen'
-    uses = [GetReaderProved(), ReaderDictAssumed()]
+    uses = [GetReaderProved(), GetReaderDictProved()]
     max_paths = 60
 
     def __init__(self, with_format):
@@ -224,7 +280,7 @@ class PncOpen(Contract):
         return self.frame(I) + [('raises-only-KeyError-for-an-unknown-format (raised %s)' % exc, exc == 'KeyError' and self.with_format)]
 
 
-CONTRACTS = [GetReader(False), GetReader(True), RegisterReader(), PncOpen(False), PncOpen(True)]
+CONTRACTS = [GetReader(False), GetReader(True), RegisterReader(), GetReaderDict(), PncOpen(False), PncOpen(True)]
 
 
 def bounded(tier, seed):
@@ -418,7 +474,8 @@ META = dict(
     technique='contract-based deductive verification: frame condition on the module registry for an arbitrary (symbolic-length) registry',
     text='getreader and pncopen (with and without an explicit format) are proved to leave the module-level registry unchanged (content and identity) on every path, for a '
          'registry of arbitrary length and arbitrary isMine predicates, with and without an explicit format; '
-         'registerreader is proved to insert at the front iff the name is absent. History independence follows: the '
+         'registerreader is proved to insert at the front iff the name is absent; getreaderdict is proved to return a new dictionary of the registry as it is at the call '
+         '(no table kept between calls, no module-level variable written or read besides the registry) and pncopen uses that proved summary. History independence follows: the '
          'reader chosen is a function of the arguments and the registry, and the registry is invariant under getreader.',
     note='Reader classes are abstract: isMine is an uninterpreted pure predicate of (class, arguments) (isMine methods that '
          'themselves have side effects are outside this contract); os.path.splitext/isfile are uninterpreted; strings are '
